@@ -3,3 +3,6 @@ import QrlewModel.Props.C03
 import QrlewModel.Props.C11
 import QrlewModel.Props.C13
 import QrlewModel.Props.C15
+import QrlewModel.Props.C06
+import QrlewModel.Props.C10
+import QrlewModel.Props.C12
